@@ -23,6 +23,7 @@ def runCase (line : String) : String :=
   | some "slife" => let (m, s) := runSlife tok; s!"{m} ## {s}"
   | some "net" => let (m, s) := runNet tok; s!"{m} ## {s}"
   | some "tls" => let (m, s) := runTls tok; s!"{m} ## {s}"
+  | some "role" => let (m, s) := runRole tok; s!"{m} ## {s}"
   | some "cl" =>
     -- every output the model admits over the scheduler's choices (`tokio::select!` order),
     -- the default-order output first; the specification side is the same set
